@@ -35,7 +35,7 @@ def _case_key(rec):
 
 
 class _Node(object):
-    __slots__ = ("key", "ses", "proj", "frame", "unl", "exc")
+    __slots__ = ("key", "ses", "proj", "frame", "unl", "exc", "exc_tb")
 
 
 def _exec_pass(coin, parent, shape, a, bits):
@@ -235,8 +235,8 @@ def run(ctx):
                         "TLC/SANY, CPython, OpenSSL via pycoin's native binding"]
     # 1. model
     if want("model"):
-        for cfg in (["MC_Signer_q", "MC_Signer_deep_q"] if q else ["MC_Signer_q", "MC_Signer_deep_q", "MC_Signer_t"]):
-            ctx.tlc("MC_Signer", cfg, coverage=not q, timeout=3000, require_actions=() if q else ("SignPass",))
+        for cfg in (["MC_Signer_q", "MC_Signer_deep_q", "MC_Signer_oc"] if q else ["MC_Signer_q", "MC_Signer_deep_q", "MC_Signer_oc", "MC_Signer_t"]):
+            ctx.tlc("MC_Signer", cfg, coverage=not q, timeout=3000, require_actions=() if q else ("Next",))
 
     # 2. spec -> code
     if want("replay") or any(o.startswith("replay_") for o in (only or ())):
@@ -442,6 +442,8 @@ def _trace_key(t, j, exp):
         kc = "multi" if d["kind"] in MULTI else "single"
         x = exp[i]
         got = set(k for k, b in e["signed"][i])
+        if len(got) != len(e["signed"][i]):
+            return "C05|signed|kindclass=%s|form=%s|%s|got=two-signatures-of-one-key" % (kc, d["form"], ctxs)
         if not x["touchable"] and (i + 1) in e["changed"]:
             return "C05|touched|asked=%s|kindclass=%s" % ((i + 1) in e["I"], kc)
         if not set(x["present"]) <= got:
